@@ -571,6 +571,34 @@ func (d *deepView) rangeLiteral(v ssa.Value, fr *frame) (ssa.Value, int64, bool)
 				}
 			}
 		}
+		// the same loop over an array literal ranged by value: the element is read by
+		// value indexing of the loaded array (for _, e := range [...]T{a, b, c})
+		if ix, ok := v.(*ssa.Index); ok {
+			if _, isK := ir.ConstInt(ix.Index); !isK {
+				if ld, isLd := ix.X.(*ssa.UnOp); isLd && ld.Op == token.MUL {
+					if a, _, ok := d.literalArray(ld.X, fr); ok {
+						if bo, ok := ix.Index.(*ssa.BinOp); ok && bo.Op == token.ADD {
+							if ph, ok := bo.X.(*ssa.Phi); ok && len(ph.Edges) >= 2 {
+								if k, isK := ir.ConstInt(bo.Y); isK && k == 1 {
+									c0, ok0 := ir.ConstInt(ph.Edges[0])
+									back := true
+									for _, e := range ph.Edges[1:] {
+										if e != ssa.Value(bo) {
+											back = false
+										}
+									}
+									if ok0 && c0 == -1 && back {
+										idxV = ix.Index
+										n = a.Type().Underlying().(*types.Pointer).Elem().Underlying().(*types.Array).Len()
+										return
+									}
+								}
+							}
+						}
+					}
+				}
+			}
+		}
 		if in, ok := v.(ssa.Instruction); ok {
 			for _, op := range in.Operands(nil) {
 				if *op != nil {
